@@ -117,9 +117,9 @@ open NA.Gen.CiscoFacts
 
 /-- `aaa-server`, `ldap attribute-map` and `interface` definitions are never added, deleted or marked. -/
 theorem fixed_types_guarded :
-    earlyReturnCases = [("addCmd", ["aaa-server", "ldap attribute-map", "interface"]),
+    earlyReturnCases = [("addCmd", ["aaa-server", "interface", "ldap attribute-map"]),
                         ("delCmds", ["interface"]),
-                        ("markDeleted", ["aaa-server", "ldap attribute-map", "interface"])] := by decide
+                        ("markDeleted", ["aaa-server", "interface", "ldap attribute-map"])] := by decide
 
 /-- Routes of a VRF / address family for which the target specifies none are only reported, not deleted. -/
 theorem routes_untouched_guard :
